@@ -871,6 +871,13 @@ def _signer_cells_(ctx):
     while len(secrets) < 2:
         secrets.setdefault(_ref_mul(d0)[1] % 2, d0)
         d0 += 1
+    # a short secret whose public key has an x coordinate with a leading zero byte: every 32-byte field of the preimages must keep its width
+    dz, pz = 1, (_GX, _GY)
+    while pz[0] >> 248 and dz < 4096:
+        dz, pz = dz + 1, _ref_padd(pz, (_GX, _GY))
+    if pz[0] >> 248:
+        raise AnalysisError("signer cells: no key with a zero-led x coordinate below 4096")
+    secrets[2] = dz
     seen, out, n = set(), [], 0
     try:
         for par, d0 in sorted(secrets.items()):
@@ -887,7 +894,7 @@ def _signer_cells_(ctx):
                         rpar_seen.add((want[2], aux is None))
                         ctx.count("cells")
                         n += 1
-                        where = "%s key with %s Y, nonce point with %s Y, aux %s" % ("compressed" if compressed else "uncompressed", "odd" if par else "even",
+                        where = "%s key with %s Y, nonce point with %s Y, aux %s" % ("compressed" if compressed else "uncompressed", ("even", "odd", "a zero-led x and %s" % ("odd" if _ref_mul(d0)[1] % 2 else "even"))[par],
                                                                                     "odd" if want[2] else "even", "absent" if aux is None else "given")
                         ev = Evaluator(ctx.repo, method_hooks=hooks, externals=ext, max_steps=400000)
                         try:
